@@ -244,6 +244,11 @@ StationsTouched(B, T) ==
   {s \in DOMAIN B.st \cap DOMAIN T.st : B.st[s].bal # T.st[s].bal \/ B.st[s].disp # T.st[s].disp}
 
 \* fare = value of the requests picked up in this update (0 if none)
+\* n: the exact comparisons logged with the update (or <<>>)
+C05_Exact(T, v, n) ==
+     (IF "disp_ok" \in DOMAIN n /\ ~n.disp_ok THEN {V("C05", "energy_both_sides", "exact", v)} ELSE {})
+  \cup (IF "pay_ok" \in DOMAIN n /\ ~n.pay_ok /\ T.veh[v].ob = None THEN {V("C05", "payment_received_in_full", "exact", v)} ELSE {})
+
 C05_Update(B, T, v, fare) ==
   LET a   == T.veh[v].act
       dE  == T.veh[v].gained - B.veh[v].gained
